@@ -1659,7 +1659,17 @@ def _t_krondiag_sqrt_neg(case):
     return False
 
 
+def _t_inverse_nested_chol(case):
+    """inverse of an operator that contains a CholLinearOperator below its head: Chol.inverse() is an UPPER Chol operator,
+    whose matmul is wrong (F-C01-chol-upper), and the enclosing operator multiplies through it"""
+    if case.get("kind") != "reg" or short(case["fn"]) not in ("inverse", "inv"):
+        return False
+    r = case["recipe"]
+    return any(n["op"] == "Chol" for n in R.walk(r)) and r["op"] != "Chol"
+
+
 TRIGGERS = {
+    "inverse_nested_chol": _t_inverse_nested_chol,
     "krondiag_sqrt_negative_factor": _t_krondiag_sqrt_neg,
     "alpha_reversed": _t_alpha,
     "identity_exp": _t_identity_exp,
